@@ -136,7 +136,22 @@ def run(ch: Checker) -> None:
     ch.check(bad is None and n >= 2, 'C14.1', cu, 'address of the upstream', 'upstream created for (text_(request.host), request.port) on %d site-path(s)' % n, bad[0] if bad else 'creation sites not found', witness=bad[1] if bad else None)
     conn = prog.own_method('TcpServerConnection', 'connect')
     calls = [c for c in walk_no_nested(conn.node) if isinstance(c, ast.Call) and attr_chain(c.func) == 'new_socket_connection']
-    okc = len(calls) == 1 and calls[0].args and norm(calls[0].args[0]) == '%s or self.addr' % conn.params[1]
+    # per path: the address is the override when one was given (truthy), the connection's own address otherwise
+    ap_ = conn.params[1]
+    gconn = cfg_of(conn, prog, exc_edges=False)
+    okc = len(calls) == 1
+    seen_c = 0
+    for p in fpaths(gconn):
+        sym = Sym(p)
+        for i, st in p.stmts():
+            for c in walk_no_nested(st):
+                if any(c is x for x in calls) and c.args:
+                    seen_c += 1
+                    v = norm(sym.value(c.args[0], i))
+                    given = allfacts(p, i).get(ap_)
+                    if not (v == '%s or self.addr' % ap_ or (given is True and v == ap_) or (given is False and v == 'self.addr')):
+                        okc = False
+    okc = okc and seen_c > 0
     ch.check(bool(okc), 'C14.1', conn, 'new_socket_connection(addr or self.addr)', 'socket layer receives the override or the connection\'s own address', 'TcpServerConnection.connect hands %s to the socket layer' % [norm(c) for c in calls])
     init = prog.own_method('TcpServerConnection', '__init__')
     st = [norm(s.value) for s in walk_no_nested(init.node) if isinstance(s, (ast.Assign, ast.AnnAssign)) and attr_chain(s.targets[0] if isinstance(s, ast.Assign) else s.target) == 'self.addr']
